@@ -404,6 +404,30 @@ func TestVerifC09(t *testing.T) {
 				}
 			}
 		}
+		// messages that are invalid because of their type or hop limit arrive while
+		// the forwarding state cannot be read: they are dropped without looking at
+		// anything, so the fault must go unnoticed and later solicitations be served
+		for ti, typ := range types {
+			for hi, hop := range []int{255, 64, -1} {
+				if (typ == "rs" || typ == "ra") && hop == 255 {
+					continue // valid: they do need the state
+				}
+				for k := 1; k <= 3; k++ {
+					c := &advCase{ID: fmt.Sprintf("duringfault/%s/%d/%d", typ, hop, k), Min: 20 * time.Second, Max: 30 * time.Second, Fwd: true, Terminate: true, Seed: time.Duration(ti*7 + hi*3 + k)}
+					c.Steps = []advStep{{At: 5 * time.Second, Kind: "fwderr", On: true}}
+					for j := 0; j < k; j++ {
+						h := hop
+						if h == 255 {
+							h = 0
+						}
+						c.Steps = append(c.Steps, advStep{At: 5*time.Second + time.Duration(j+1)*100*vMs, Kind: "msg", Msg: typ, Src: []string{"fe80::bad:1", "::", "2001:db8:bad::1"}[j%3], Hop: h})
+					}
+					c.Steps = append(c.Steps, advStep{At: 6 * time.Second, Kind: "fwderr", On: false}, advStep{At: 7 * time.Second, Kind: "rs", Src: "fe80::900d:4"})
+					c.StopAt = 9 * time.Second
+					run(c)
+				}
+			}
+		}
 		// runs of k consecutive invalid messages, k beyond the retry budget
 		for k := 1; k <= 12; k++ {
 			for v := 0; v < 6; v++ {
